@@ -25,7 +25,7 @@
 (***************************************************************************)
 EXTENDS Integers, Sequences, FiniteSets, Json, IOUtils, TLC
 
-CONSTANTS MODE,     \* "gen11" | "check" | "gen12" | "check12" | "gen10"
+CONSTANTS MODE,     \* "gen11" | "check" | "gen12" | "check12" | "gen10" | "check10p"
           Depth,    \* nesting depth of generated documents
           L         \* length bound for abstract token sequences (gen12)
 
@@ -183,7 +183,25 @@ Gen12 == TokSeqs \cup {Toks(d) : d \in MixedDocs} \cup Injected \cup Prefixes
 (* check12: [status, pieces, diag]: status must be "value" or "diagnostic"; *)
 (*   a diagnostic names a token that starts at the reported line / column.  *)
 
-Recs == IF MODE \in {"check", "check12"} THEN ndJsonDeserialize(IOEnv.TRACE) ELSE <<>>
+----------------------------------------------------------------------------
+(* Values for the round trip and call sequences for purity (C10) *)
+
+AtomTable == IF MODE = "gen10" THEN JsonDeserialize(IOEnv.ATOMS) ELSE <<>>      \* <<[c |-> class, n |-> count]>>
+AtomLeaves == UNION {{[k |-> "atom", c |-> AtomTable[t].c, i |-> j] : j \in 1..AtomTable[t].n} : t \in 1..Len(AtomTable)}
+AKey == [k |-> "atom", c |-> "string", i |-> 2]
+\* every atom alone, next to a sibling (multi-line layout), as key and as value
+AtomValues ==
+    {[k |-> "coll", kind |-> kind, items |-> <<a>>] : kind \in ValueKinds, a \in AtomLeaves} \cup
+    {[k |-> "coll", kind |-> "List", items |-> <<a, AKey>>] : a \in AtomLeaves} \cup
+    {[k |-> "coll", kind |-> kind, items |-> <<[k |-> "assoc", key |-> a, val |-> AKey]>>] : kind \in AssocKinds, a \in AtomLeaves} \cup
+    {[k |-> "coll", kind |-> kind, items |-> <<[k |-> "assoc", key |-> AKey, val |-> a], [k |-> "assoc", key |-> a, val |-> a]>>] :
+        kind \in {"Catalog"}, a \in AtomLeaves \ {AKey}} \cup
+    {[k |-> "coll", kind |-> "List", items |-> <<[k |-> "coll", kind |-> "Set", items |-> <<a>>], a>>] : a \in AtomLeaves}
+
+PurityNames == {"small", "nested", "fail0", "fail2"}
+PuritySeqs == UNION {[1..n -> PurityNames] : n \in 1..L}
+
+Recs == IF MODE \in {"check", "check12", "check10p"} THEN ndJsonDeserialize(IOEnv.TRACE) ELSE <<>>
 
 RecOK(x) == IF x.want.k = "reject" THEN x.status = "diagnostic"
             ELSE x.status = "value" /\ x.got = x.want
@@ -206,12 +224,18 @@ Rec12OK(x) ==
           \/ /\ x.diag.type = "EOF"
              /\ LineAt(ps, n + 1) = x.diag.line /\ ColAt(ps, n + 1, x.total) = x.diag.col
 
-Bad == {i \in 1..Len(Recs) : IF MODE = "check" THEN ~RecOK(Recs[i]) ELSE ~Rec12OK(Recs[i])}
+\* check10p: [status] of purity sequences ("pure") and of deep / self-containing values ("ok")
+Bad == {i \in 1..Len(Recs) : CASE MODE = "check" -> ~RecOK(Recs[i])
+                                 [] MODE = "check12" -> ~Rec12OK(Recs[i])
+                                 [] MODE = "check10p" -> Recs[i].status \notin {"pure", "ok"}}
 
 VARIABLE dummy
 Init == /\ dummy = 0
         /\ CASE MODE = "gen11" -> \A d \in Docs : PrintT(ToJson([toks |-> Toks(d), mean |-> Mean(d)]))
              [] MODE = "gen12" -> \A s \in Gen12 : PrintT(ToJson(s))
+             [] MODE = "gen10" -> /\ \A d \in Docs : PrintT(ToJson([v |-> Mean(d)]))
+                                  /\ \A v \in AtomValues : PrintT(ToJson([v |-> v]))
+                                  /\ \A q \in PuritySeqs : PrintT(ToJson([seq |-> q]))
              [] OTHER -> PrintT(<<"BAD", Bad>>)
 Next == UNCHANGED dummy
 Spec == Init /\ [][Next]_dummy
